@@ -2,6 +2,7 @@ import Cherab.Model.Adf
 import Cherab.Lemmas.Adf
 import Mathlib.Tactic.Ring
 import Mathlib.Tactic.Linarith
+import Mathlib.Data.List.Nodup
 
 /-!
 # C08 — ADF parsers return the file's numbers under the documented conventions
@@ -117,6 +118,18 @@ theorem sec_read (n : Nat) (pad : α) (xs : List α) (h : xs.length ≤ n) (rest
     readvalues (lexK12 (α := α)).field n 6 (section12 n pad xs ++ rest) = .ok (padTo n pad xs, rest) :=
   readvalues_chunks_n _ K12.vals field12 6 (by omega) _ _ (length_padTo n pad xs h) rest
 
+theorem take_padTo_map (n m : Nat) (pad : α) (f : Nat → α) :
+    (padTo n pad ((List.range m).map f)).take m = (List.range m).map f := by
+  have := take_padTo n pad ((List.range m).map f)
+  simpa using this
+
+theorem readvalues_line {β : Type} (field : ℓ → Nat → Option β) (mk : List β → ℓ) (hf : ∀ xs k, field (mk xs) k = xs[k]?)
+    (p : Nat) (xs : List β) (n : Nat) (hn : xs.length = n) (h0 : 0 < n) (hp : n ≤ p) (rest : List ℓ) :
+    readvalues field n p (mk xs :: rest) = .ok (xs, rest) := by
+  have := readvalues_chunks_n field mk hf p (by omega) xs n hn rest
+  rw [chunk_small xs (by intro h; subst h; simp at hn; omega) (by omega)] at this
+  simpa using this
+
 /-- well-formed ADF12 block: five reference values, section lengths within the fixed 24/12/24/12/12 layout -/
 structure WF12 (b : Blk12 α) : Prop where
   refs : b.refs.length = 5
@@ -134,13 +147,429 @@ theorem parseBlock12_render (pad : α) (b : Blk12 α) (h : WF12 b) (rest : List 
     | [r0, r1, r2, r3, r4], _ => exact ⟨r0, r1, r2, r3, r4, rfl⟩
   unfold parseBlock12 renderBlk12 expectedBlk12
   simp only [List.append_assoc, List.cons_append, List.nil_append, needLine, bind, Except.bind, opt, pure, Except.pure]
-  have hq : readvalues (lexK12 (α := α)).field 1 6 (K12.vals [b.qefref] :: (K12.vals b.refs :: (K12.ints [b.ener.length, b.tiev.length, b.densi.length, b.zeff.length, b.bmag.length] :: rest')))
-      = .ok ([b.qefref], K12.vals b.refs :: (K12.ints [b.ener.length, b.tiev.length, b.densi.length, b.zeff.length, b.bmag.length] :: rest')) := by
-    intro rest'
-    have := readvalues_chunks_n _ K12.vals (field12 (α := α)) 6 (by omega) [b.qefref] 1 rfl
-      (K12.vals b.refs :: (K12.ints [b.ener.length, b.tiev.length, b.densi.length, b.zeff.length, b.bmag.length] :: rest'))
-    rw [chunk_small _ (by simp) (by simp)] at this
-    simpa using this
-  sorry
+  rw [readvalues_line _ K12.vals field12 6 [b.qefref] 1 rfl (by omega) (by omega)]
+  simp only [List.getElem?_cons_zero]
+  rw [readvalues_line _ K12.vals field12 6 b.refs 5 hr (by omega) (by omega)]
+  simp only []
+  rw [readvalues_line _ K12.ints ifield12 6 _ 5 rfl (by omega) (by omega)]
+  simp only [hrefs]
+  rw [sec_read 24 pad _ h1]; simp only []
+  rw [sec_read 24 pad _ (by simpa using h1)]; simp only []
+  rw [sec_read 12 pad _ h2]; simp only []
+  rw [sec_read 12 pad _ (by simpa using h2)]; simp only []
+  rw [sec_read 24 pad _ h3]; simp only []
+  rw [sec_read 24 pad _ (by simpa using h3)]; simp only []
+  rw [sec_read 12 pad _ h4]; simp only []
+  rw [sec_read 12 pad _ (by simpa using h4)]; simp only []
+  rw [sec_read 12 pad _ h5]; simp only []
+  rw [sec_read 12 pad _ (by simpa using h5)]; simp only []
+  simp only [take_padTo, take_padTo_map, List.getD_cons_zero, List.getD_cons_succ]
+  rfl
+
+theorem parseBlocks12_render (pad : α) (rest : List (K12 α)) :
+    ∀ (bs : List (Blk12 α)), (∀ b ∈ bs, WF12 b) → ∀ d,
+      parseBlocks12 lexK12 bs.length (bs.flatMap (renderBlk12 pad) ++ rest) d
+        = .ok ((bs.map expectedBlk12).foldl (fun d kv => dictSet d kv.1 kv.2) d) := by
+  intro bs
+  induction bs with
+  | nil => intro _ d; simp [parseBlocks12]
+  | cons b bs ih =>
+    intro h d
+    simp only [List.length_cons, List.flatMap_cons, List.append_assoc, parseBlocks12]
+    rw [parseBlock12_render pad b (h b List.mem_cons_self)]
+    simp only [List.map_cons, List.foldl_cons]
+    exact ih (fun b' hb' => h b' (List.mem_cons_of_mem _ hb')) _
+
+/-- ADF12: for any number of blocks with section lengths within the fixed 24/12/24/12/12 layout, the parser returns
+every block's tables truncated to the stated counts, keyed by its transition (a repeated transition overwrites, as in
+a Python dict). -/
+theorem adf12_roundtrip (pad : α) (bs : List (Blk12 α)) (h : ∀ b ∈ bs, WF12 b) :
+    parse12 lexK12 (render12 pad bs) = .ok (dictOfList (bs.map expectedBlk12)) := by
+  unfold parse12 render12 dictOfList
+  simp only [needLine, bind, Except.bind, opt]
+  have := parseBlocks12_render pad [] bs h []
+  simp only [List.append_nil] at this
+  exact this
+
+/-! ## ADF11 -/
+section adf11
+variable {ν : Type} [DecidableEq ν] (neg : α → Bool)
+
+section views11
+variable (n : Nat) (z : Option Nat) (k : Nat) (xs : List α) (hh : Hdr11 ν)
+@[simp] theorem v11_cdash : (lexK11 (ν := ν) neg).cdash (.dashes n z) = true := rfl
+@[simp] theorem v11_cdash_nums : (lexK11 (ν := ν) neg).cdash (.nums xs) = false := rfl
+@[simp] theorem v11_c1dash0 : (lexK11 (ν := ν) neg).c1dash (.dashes 0 z) = false := rfl
+@[simp] theorem v11_c1dash1 : (lexK11 (ν := ν) neg).c1dash (.dashes 1 z) = true := rfl
+@[simp] theorem v11_c01dash0 : (lexK11 (ν := ν) neg).c01dash (.dashes 0 z) = true := rfl
+@[simp] theorem v11_c01dash1 : (lexK11 (ν := ν) neg).c01dash (.dashes 1 z) = true := rfl
+@[simp] theorem v11_dash0 : (lexK11 (ν := ν) neg).dash (.dashes 0 z) = true := rfl
+@[simp] theorem v11_dash_nums : (lexK11 (ν := ν) neg).dash (.nums xs) = false := rfl
+@[simp] theorem v11_conly : (lexK11 (α := α) (ν := ν) neg).conly .cOnly = true := rfl
+@[simp] theorem v11_conly_nums : (lexK11 (ν := ν) neg).conly (.nums xs) = false := rfl
+@[simp] theorem v11_conly_dashes : (lexK11 (α := α) (ν := ν) neg).conly (.dashes n z) = false := rfl
+@[simp] theorem v11_z1 : (lexK11 (α := α) (ν := ν) neg).z1 (.dashes n (some k)) = some (some k) := rfl
+@[simp] theorem v11_z1_none : (lexK11 (α := α) (ν := ν) neg).z1 (.dashes n none) = none := rfl
+@[simp] theorem v11_header : (lexK11 (α := α) (ν := ν) neg).header (.hdr hh) = some hh := rfl
+@[simp] theorem v11_digit0_dashes : (lexK11 (α := α) (ν := ν) neg).digit0 (.dashes n z) = false := rfl
+end views11
+
+theorem tokensOf_nums (ls : List (List α)) :
+    tokensOf (lexK11 (ν := ν) neg) (ls.map .nums) = some ls.flatten := by
+  induction ls with
+  | nil => rfl
+  | cons c ls ih => simp only [List.map_cons, tokensOf, ih, List.flatten_cons]; rfl
+
+theorem flatten_flatMap_chunk {β : Type} (l : List β) (f : β → List α) :
+    (l.flatMap fun j => chunk 8 (f j)).flatten = l.flatMap f := by
+  induction l with
+  | nil => rfl
+  | cons a l ih => simp only [List.flatMap_cons, List.flatten_append, ih, chunk_flatten' (by omega : 0 < 8)]
+
+theorem dataLines11_eq (nNe nTe : Nat) (b : Blk11 α) :
+    dataLines11 (ν := ν) nNe nTe b
+      = ((List.range nTe).flatMap fun j => chunk 8 ((List.range nNe).map fun i => b.rate i j)).map .nums := by
+  unfold dataLines11
+  rw [List.map_flatMap]
+
+theorem tokens_dataLines (nNe nTe : Nat) (b : Blk11 α) :
+    tokensOf (lexK11 (ν := ν) neg) (dataLines11 nNe nTe b)
+      = some ((List.range nTe).flatMap fun j => (List.range nNe).map fun i => b.rate i j) := by
+  rw [dataLines11_eq, tokensOf_nums, flatten_flatMap_chunk]
+
+theorem reshapeSwap_table (nNe nTe : Nat) (rate : Nat → Nat → α) :
+    reshapeSwap nTe nNe ((List.range nTe).flatMap fun j => (List.range nNe).map fun i => rate i j)
+      = some (tabulate nNe nTe rate) := by
+  unfold reshapeSwap tabulate
+  rw [if_pos (length_flatMap_range nTe nNe (fun j i => rate i j))]
+  congr 1
+  apply map_range_congr
+  intro i hi
+  apply filterMap_range_some
+  intro j hj
+  exact getElem?_flatMap_range nTe nNe (fun j i => rate i j) j i hj hi
+
+/-- data lines are accumulated into the open block -/
+theorem loop11_data (h : Hdr11 ν) (vec : Option (List α)) (rest : List (K11 α ν)) :
+    ∀ (ds : List (List α)) (acc : List (K11 α ν)) (ion : Nat) (rates : List (Nat × Block11 α)),
+      loop11 (lexK11 neg) h vec (ds.map .nums ++ rest) { acc := some acc, ion := ion, rates := rates }
+        = loop11 (lexK11 neg) h vec rest { acc := some (acc ++ ds.map .nums), ion := ion, rates := rates } := by
+  intro ds
+  induction ds with
+  | nil => intro acc ion rates; simp
+  | cons d ds ih =>
+    intro acc ion rates
+    simp only [List.map_cons, List.cons_append, loop11]
+    have : (lexK11 (ν := ν) neg).cdash (.nums d) = false := rfl
+    simp only [this, Bool.false_eq_true, if_false, Option.map_some]
+    rw [ih]
+    simp
+
+theorem loop11_dataLines (h : Hdr11 ν) (vec : Option (List α)) (rest : List (K11 α ν)) (nNe nTe : Nat) (b : Blk11 α)
+    (ion : Nat) (rates : List (Nat × Block11 α)) :
+    loop11 (lexK11 neg) h vec (dataLines11 nNe nTe b ++ rest) { acc := some [], ion := ion, rates := rates }
+      = loop11 (lexK11 neg) h vec rest { acc := some (dataLines11 nNe nTe b), ion := ion, rates := rates } := by
+  rw [dataLines11_eq, loop11_data]
+  simp
+
+/-- closing an open block whose accumulated lines are the data lines of `cur` -/
+theorem loop11_blocks (t : Tab11 α ν) (h : Hdr11 ν) (hNe : h.nNe = t.ne.length) (hTe : h.nTe = t.te.length) :
+    ∀ (bs : List (Blk11 α)) (cur : Blk11 α) (rates : List (Nat × Block11 α)),
+      loop11 (lexK11 neg) h (some (t.ne ++ t.te))
+          (bs.flatMap (renderBlk11 t.ne.length t.te.length) ++ endLines11 t.altEnd)
+          { acc := some (dataLines11 t.ne.length t.te.length cur), ion := cur.z1, rates := rates }
+        = .ok (((cur :: bs).map (expectedBlk11 t)).foldl (fun d kv => dictSet d kv.1 kv.2) rates) := by
+  intro bs
+  induction bs with
+  | nil =>
+    intro cur rates
+    cases hA : t.altEnd <;>
+      simp [endLines11, loop11, tokens_dataLines, hNe, hTe, reshapeSwap_table, expectedBlk11]
+  | cons b bs ih =>
+    intro cur rates
+    simp only [List.flatMap_cons, renderBlk11, List.cons_append, List.append_assoc]
+    rw [loop11]
+    simp only [v11_cdash, if_true, tokens_dataLines, hNe, hTe, reshapeSwap_table, v11_c1dash0, Bool.false_eq_true, if_false,
+      v11_c01dash0, v11_z1]
+    have hnext : ∀ (nxt : K11 α ν) (tl : List (K11 α ν)),
+        dataLines11 t.ne.length t.te.length b ++ (bs.flatMap (renderBlk11 t.ne.length t.te.length) ++ endLines11 t.altEnd) = nxt :: tl →
+        (lexK11 (ν := ν) neg).conly nxt = false := by
+      intro nxt tl he
+      rw [dataLines11_eq] at he
+      rcases hd : ((List.range t.te.length).flatMap fun j => chunk 8 ((List.range t.ne.length).map fun i => b.rate i j)) with _ | ⟨d, ds⟩
+      · rw [hd] at he
+        cases bs with
+        | nil =>
+          cases hA : t.altEnd <;> simp [endLines11, hA] at he <;> (obtain ⟨rfl, _⟩ := he; rfl)
+        | cons b' bs' =>
+          simp [renderBlk11] at he
+          obtain ⟨rfl, _⟩ := he; rfl
+      · rw [hd] at he
+        simp at he
+        obtain ⟨rfl, _⟩ := he; rfl
+    rcases hl : dataLines11 t.ne.length t.te.length b ++ (bs.flatMap (renderBlk11 t.ne.length t.te.length) ++ endLines11 t.altEnd) with _ | ⟨nxt, tl⟩
+    · exfalso
+      cases hA : t.altEnd <;> simp [endLines11, hA] at hl
+    · simp only [hnext nxt tl hl]
+      rw [← hl, loop11_dataLines, ih]
+      simp [expectedBlk11, List.take_left', List.drop_left']
+
+theorem splitAtDash_vec (z : Option Nat) (rest : List (K11 α ν)) :
+    ∀ (ds : List (List α)),
+      splitAtDash (lexK11 neg) (ds.map .nums ++ .dashes 0 z :: rest) = some (ds.map .nums, .dashes 0 z :: rest) := by
+  intro ds
+  induction ds with
+  | nil => simp [splitAtDash]
+  | cons d ds ih => simp [splitAtDash, ih]
+
+/-- the line that the resolved-file probe `re.match(r"\s*[0-9]+", lines[3])` looks at in an unresolved file -/
+def probeLine (t : Tab11 α ν) : List α := if 8 < t.ne.length then (t.ne.drop 8).take 8 else t.te.take 8
+
+theorem line3_unresolved (t : Tab11 α ν) (hres : t.resolved = none) (hne : t.ne ≠ []) (hte : t.te ≠ []) :
+    (render11 t)[3]? = some (.nums (probeLine t)) := by
+  unfold render11 probeLine
+  simp only [hres, List.append_nil, List.cons_append, List.nil_append, List.append_assoc]
+  rw [chunk_cons (by omega) hne]
+  by_cases h8 : 8 < t.ne.length
+  · have hd : t.ne.drop 8 ≠ [] := by
+      intro h0
+      have : (t.ne.drop 8).length = 0 := by rw [h0]; rfl
+      simp only [List.length_drop] at this; omega
+    rw [chunk_cons (by omega) hd]
+    simp [h8]
+  · have hd : t.ne.drop 8 = [] := List.drop_eq_nil_of_le (by omega)
+    rw [hd, chunk_nil, chunk_cons (by omega) hte]
+    simp [h8]
+
+theorem vec_tokens (t : Tab11 α ν) :
+    tokensOf (lexK11 (ν := ν) neg) ((chunk 8 t.ne).map K11.nums ++ (chunk 8 t.te).map K11.nums) = some (t.ne ++ t.te) := by
+  rw [← List.map_append, tokensOf_nums, List.flatten_append, chunk_flatten' (by omega), chunk_flatten' (by omega)]
+
+/-- after the header and the probe: the density-then-temperature vector, then the block loop -/
+theorem parse11_body (t : Tab11 α ν) (h : Hdr11 ν) (hNe : h.nNe = t.ne.length) (hTe : h.nTe = t.te.length)
+    (b : Blk11 α) (bs : List (Blk11 α)) :
+    body11 (lexK11 neg) h ((chunk 8 t.ne).map K11.nums ++ ((chunk 8 t.te).map K11.nums
+            ++ ((b :: bs).flatMap (renderBlk11 t.ne.length t.te.length) ++ endLines11 t.altEnd)))
+      = .ok (dictOfList ((b :: bs).map (expectedBlk11 t))) := by
+  unfold body11
+  simp only [List.flatMap_cons, renderBlk11, List.cons_append, List.append_assoc]
+  rw [← List.append_assoc, ← List.map_append, splitAtDash_vec]
+  simp only [List.map_append, vec_tokens]
+  rw [loop11]
+  simp only [v11_cdash, if_true, v11_z1]
+  rw [loop11_dataLines, loop11_blocks neg t h hNe hTe]
+  rfl
+
+/-- **ADF11 round trip** (resolved and unresolved files, any grid sizes ≥ 1, any number ≥ 1 of charge-state blocks, both
+terminator styles): the parser returns, for every `Z1` block, the density vector, the temperature vector and
+`rates[i_ne][i_te]`.  For an *unresolved* file this holds only if the file's fourth line passes the resolved-file probe
+`\s*[0-9]+` — i.e. does not start with a minus sign (see `adf11_unresolved_misdetected`); hence `_partial`.
+Once the probe accepts a sign (`Gen.AdfLex.probeAcceptsMinus`, read off the source), `probe_after_fix` discharges the
+hypothesis for every file. -/
+theorem adf11_roundtrip_partial (t : Tab11 α ν) (hne : t.ne ≠ []) (hte : t.te ≠ []) (hb : t.blocks ≠ [])
+    (hprobe : t.resolved = none → (lexK11 (ν := ν) neg).digit0 (.nums (probeLine t)) = true) :
+    parse11 (lexK11 neg) t.z t.name (render11 t) = .ok (dictOfList (t.blocks.map (expectedBlk11 t))) := by
+  obtain ⟨b, bs, hbs⟩ : ∃ b bs, t.blocks = b :: bs := by
+    cases hb' : t.blocks with
+    | nil => exact absurd hb' hb
+    | cons b bs => exact ⟨b, bs, rfl⟩
+  unfold parse11
+  have h0 : (render11 t)[0]? = some (.hdr { z := t.z, nNe := t.ne.length, nTe := t.te.length, zmin := t.zmin, zmax := t.zmax, name := t.name }) := by
+    simp [render11]
+  simp only [h0, opt, bind, Except.bind, v11_header, bne_self_eq_false, beq_self_eq_true, Bool.not_true, Bool.or_self,
+    Bool.false_eq_true, if_false]
+  cases hres : t.resolved with
+  | some m =>
+    have h3 : (render11 t)[3]? = some (.dashes 0 none) := by simp [render11, hres]
+    have hdrop : (render11 t).drop 4 = (chunk 8 t.ne).map .nums ++ ((chunk 8 t.te).map .nums
+        ++ ((b :: bs).flatMap (renderBlk11 t.ne.length t.te.length) ++ endLines11 t.altEnd)) := by
+      simp [render11, hres, hbs]
+    simp only [h3, v11_digit0_dashes, Bool.false_eq_true, if_false, hdrop]
+    rw [hbs]
+    exact parse11_body neg t { z := t.z, nNe := t.ne.length, nTe := t.te.length, zmin := t.zmin, zmax := t.zmax, name := t.name } rfl rfl b bs
+  | none =>
+    have h3 := line3_unresolved t hres hne hte
+    have hdrop : (render11 t).drop 2 = (chunk 8 t.ne).map .nums ++ ((chunk 8 t.te).map .nums
+        ++ ((b :: bs).flatMap (renderBlk11 t.ne.length t.te.length) ++ endLines11 t.altEnd)) := by
+      simp [render11, hres, hbs]
+    simp only [h3, hprobe hres, if_true, hdrop]
+    rw [hbs]
+    exact parse11_body neg t { z := t.z, nNe := t.ne.length, nTe := t.te.length, zmin := t.zmin, zmax := t.zmax, name := t.name } rfl rfl b bs
+
+/-- the probe hypothesis holds when the first token of the probed line is not negative … -/
+theorem probe_nonneg (x : α) (xs : List α) (h : neg x = false) :
+    (lexK11 (ν := ν) neg).digit0 (.nums (x :: xs)) = true := by
+  simp [lexK11, h]
+
+/-- … and for every numeric line once the probe's regular expression accepts a sign -/
+theorem probe_after_fix (hfix : Cherab.Gen.AdfLex.probeAcceptsMinus = true) (x : α) (xs : List α) :
+    (lexK11 (ν := ν) neg).digit0 (.nums (x :: xs)) = true := by
+  simp [lexK11, hfix]
+
+/-- element-header check: a file whose header names another element (atomic number or name) is rejected -/
+theorem wrong_element_rejected (t : Tab11 α ν) (elemZ : Nat) (elemName : ν) (h : elemZ ≠ t.z ∨ elemName ≠ t.name) :
+    parse11 (lexK11 neg) elemZ elemName (render11 t) = .error .value := by
+  unfold parse11
+  have h0 : (render11 t)[0]? = some (.hdr { z := t.z, nNe := t.ne.length, nTe := t.te.length, zmin := t.zmin, zmax := t.zmax, name := t.name }) := by
+    simp [render11]
+  simp only [h0, opt, bind, Except.bind, v11_header]
+  rcases h with h | h
+  · simp [h]
+  · simp [h]
+
+/-- … and the matching header is necessary and sufficient for getting past the check -/
+theorem element_check_iff (t : Tab11 α ν) (elemZ : Nat) (elemName : ν) (hne : t.ne ≠ []) (hte : t.te ≠ []) (hb : t.blocks ≠ [])
+    (hprobe : t.resolved = none → (lexK11 (ν := ν) neg).digit0 (.nums (probeLine t)) = true) :
+    (∃ r, parse11 (lexK11 neg) elemZ elemName (render11 t) = .ok r) ↔ (elemZ = t.z ∧ elemName = t.name) := by
+  constructor
+  · rintro ⟨r, hr⟩
+    by_contra hc
+    have : elemZ ≠ t.z ∨ elemName ≠ t.name := by
+      by_cases h1 : elemZ = t.z
+      · right; intro h2; exact hc ⟨h1, h2⟩
+      · left; exact h1
+    rw [wrong_element_rejected neg t elemZ elemName this] at hr
+    cases hr
+  · rintro ⟨rfl, rfl⟩
+    exact ⟨_, adf11_roundtrip_partial neg t hne hte hb hprobe⟩
+
+end adf11
+
+/-! ### axis order, charge convention, dictionaries -/
+
+theorem tabulate_get (n m : Nat) (f : Nat → Nat → α) (i j : Nat) (hi : i < n) (hj : j < m) :
+    (tabulate n m f)[i]?.bind (·[j]?) = some (f i j) := by
+  simp [tabulate, hi, hj]
+
+/-- **axis order**: entry `[i_ne][i_te]` of the parsed ADF11 table is the value the file stores for density `i_ne`,
+temperature `i_te` (the file stores one row per temperature) -/
+theorem axis_order {ν : Type} (t : Tab11 α ν) (b : Blk11 α) (i j : Nat) (hi : i < t.ne.length) (hj : j < t.te.length) :
+    (expectedBlk11 t b).2.rates[i]?.bind (·[j]?) = some (b.rate i j) ∧ (expectedBlk11 t b).2.ne = t.ne ∧ (expectedBlk11 t b).2.te = t.te :=
+  ⟨tabulate_get _ _ _ i j hi hj, rfl, rfl⟩
+
+/-- the same for ADF15 (one row per density, `rate[i_ne][i_te]`) and ADF21/22 (`sen[i_e][i_n]`, stored per density) -/
+theorem axis_order15 {ω : Type} (b : Blk15 α ω) (i j : Nat) (hi : i < b.ne.length) (hj : j < b.te.length) :
+    (rateOfBlk15 b).rate[i]?.bind (·[j]?) = some (b.rate i j) := tabulate_get _ _ _ i j hi hj
+
+theorem axis_order2x (t : Tab2x α) (i j : Nat) (hi : i < t.eb.length) (hj : j < t.dt.length) :
+    (expected2x t).sen[i]?.bind (·[j]?) = some (t.sv i j) := tabulate_get _ _ _ i j hi hj
+
+section dict
+variable {κ β : Type} [DecidableEq κ]
+
+theorem dictSet_new (d : List (κ × β)) (k : κ) (v : β) (h : k ∉ d.map (·.1)) : dictSet d k v = d ++ [(k, v)] := by
+  induction d with
+  | nil => rfl
+  | cons kv d ih =>
+    obtain ⟨k', v'⟩ := kv
+    simp only [List.map_cons, List.mem_cons, not_or] at h
+    simp only [dictSet, beq_iff_eq, List.cons_append]
+    rw [if_neg (fun e => h.1 e.symm), ih h.2]
+
+theorem foldl_dictSet_nodup (l : List (κ × β)) :
+    ∀ (d : List (κ × β)), (d.map (·.1) ++ l.map (·.1)).Nodup →
+      l.foldl (fun d kv => dictSet d kv.1 kv.2) d = d ++ l := by
+  induction l with
+  | nil => intro d _; simp
+  | cons kv l ih =>
+    intro d h
+    simp only [List.foldl_cons]
+    have hk : kv.1 ∉ d.map (·.1) := by
+      intro hmem
+      rw [List.nodup_append] at h
+      exact h.2.2 _ hmem _ (by simp) rfl
+    rw [dictSet_new d kv.1 kv.2 hk, ih]
+    · simp
+    · simp only [List.map_append, List.map_cons, List.map_nil, List.append_assoc, List.cons_append, List.nil_append]
+      simpa using h
+
+/-- with pairwise distinct keys a dictionary built by insertion is the list itself -/
+theorem dictOfList_nodup (l : List (κ × β)) (h : (l.map (·.1)).Nodup) : dictOfList l = l := by
+  have := foldl_dictSet_nodup l [] (by simpa using h)
+  simpa [dictOfList] using this
+
+theorem dictGet_absent (l : List (κ × β)) (k : κ) (h : k ∉ l.map (·.1)) : dictGet l k = none := by
+  induction l with
+  | nil => rfl
+  | cons kv l ih =>
+    obtain ⟨k', v'⟩ := kv
+    simp only [List.map_cons, List.mem_cons, not_or] at h
+    simp only [dictGet, beq_iff_eq]
+    rw [if_neg (fun e => h.1 e.symm), ih h.2]
+
+end dict
+
+/-- which ADF11 classes are shifted: exactly scd, plt (and pls): ADAS indexes their blocks by the charge of the *product*
+ion (`Z1`), cherab by the charge of the ion the process starts from -/
+theorem charge_offset (c : Class11) :
+    c.chargeCorrection = if c = .scd ∨ c = .plt ∨ c = .pls then -1 else 0 := by
+  cases c <;> decide
+
+/-- **charge convention**: `_notation_adf11_adas2cherab` re-keys every block `Z1 ↦ Z1 + correction` and leaves the
+tables as they are (their conversions are the fixed tags `convNe11`, `convTe11`, `convRate11`); for a file with pairwise
+distinct `Z1` nothing is lost or merged. -/
+theorem charge_convention (c : Class11) (rates : List (Nat × Block11 α)) (h : (rates.map (·.1)).Nodup) :
+    notation11 c rates
+      = rates.map fun kb => ((kb.1 : Int) + c.chargeCorrection, { ne := kb.2.ne, te := kb.2.te, rates := kb.2.rates }) := by
+  unfold notation11
+  have hfold : ∀ (l : List (Nat × Block11 α)) (d : List (Int × Rate11 α)),
+      l.foldl (fun d kb => dictSet d ((kb.1 : Int) + c.chargeCorrection) ({ ne := kb.2.ne, te := kb.2.te, rates := kb.2.rates } : Rate11 α)) d
+      = (l.map fun kb => (((kb.1 : Int) + c.chargeCorrection), ({ ne := kb.2.ne, te := kb.2.te, rates := kb.2.rates } : Rate11 α))).foldl
+          (fun d kv => dictSet d kv.1 kv.2) d := by
+    intro l
+    induction l with
+    | nil => intro d; rfl
+    | cons a l ih => intro d; simp only [List.foldl_cons, List.map_cons]; exact ih _
+  rw [hfold]
+  have hk : ((rates.map fun kb => (((kb.1 : Int) + c.chargeCorrection), ({ ne := kb.2.ne, te := kb.2.te, rates := kb.2.rates } : Rate11 α))).map (·.1)).Nodup := by
+    rw [List.map_map]
+    have : ((fun x : Int × Rate11 α => x.1) ∘ fun kb : Nat × Block11 α => (((kb.1 : Int) + c.chargeCorrection), ({ ne := kb.2.ne, te := kb.2.te, rates := kb.2.rates } : Rate11 α)))
+        = (fun n : Nat => (n : Int) + c.chargeCorrection) ∘ (·.1) := rfl
+    rw [this, ← List.map_map]
+    exact List.Nodup.map (fun a b hab => by simpa using hab) h
+  exact dictOfList_nodup _ hk
+
+/-- scd block `Z1 = z` is stored as the ionisation rate of charge `z − 1`; acd block `Z1 = z` as the recombination
+rate of charge `z` -/
+example : Class11.scd.chargeCorrection = -1 ∧ Class11.plt.chargeCorrection = -1 ∧ Class11.acd.chargeCorrection = 0
+    ∧ Class11.ccd.chargeCorrection = 0 ∧ Class11.prb.chargeCorrection = 0 ∧ Class11.prc.chargeCorrection = 0 := by decide
+
+/-- a charge state that the file does not contain is not invented by the parser -/
+theorem adf11_absent_block {ν : Type} (t : Tab11 α ν) (z : Nat) (h : z ∉ t.blocks.map (·.z1)) (hnd : (t.blocks.map (·.z1)).Nodup) :
+    dictGet (dictOfList (t.blocks.map (expectedBlk11 t))) z = none := by
+  have hk : (t.blocks.map (expectedBlk11 t)).map (·.1) = t.blocks.map (·.z1) := by
+    rw [List.map_map]; rfl
+  rw [dictOfList_nodup _ (by rw [hk]; exact hnd)]
+  exact dictGet_absent _ z (by rw [hk]; exact h)
+
+/-! ### the resolved-file probe: concrete witness of the mis-detection -/
+
+def negI (x : Int) : Bool := decide (x < 0)
+
+/-- unresolved file, one density (7.0), one temperature below 1 eV (log10 = −1), one block -/
+def witness11 : Tab11 Int Nat where
+  z := 6
+  name := 0
+  zmin := 1
+  zmax := 1
+  ne := [7]
+  te := [-1]
+  resolved := none
+  blocks := [{ z1 := 1, rate := fun _ _ => -10 }]
+  altEnd := false
+
+/-- **Defect (as the code is today)**: an unresolved ADF11 file whose fourth line starts with a minus sign (≤ 8
+densities and a first temperature below 1 eV) is taken for a *resolved* file; two data lines are skipped and the parser
+returns empty density and temperature vectors next to the correct rate table — silently, no exception.
+The hypothesis `probeAcceptsMinus = false` is what the translator reads off the source today; after the fix this
+theorem is vacuous and `probe_after_fix` makes `adf11_roundtrip_partial` unconditional. -/
+theorem adf11_unresolved_misdetected : Cherab.Gen.AdfLex.probeAcceptsMinus = false →
+    parse11 (lexK11 negI) 6 0 (render11 witness11) = .ok [(1, { ne := [], te := [], rates := [[-10]] })]
+    ∧ parse11 (lexK11 negI) 6 0 (render11 witness11) ≠ .ok (dictOfList (witness11.blocks.map (expectedBlk11 witness11))) := by
+  decide
+
+/-- non-vacuity of the round trip: an unresolved 2×2 file with non-negative fourth line satisfies all hypotheses -/
+example : parse11 (lexK11 negI) 6 0 (render11 { witness11 with ne := [7, 8], te := [0, 1] })
+    = .ok [(1, { ne := [7, 8], te := [0, 1], rates := [[-10, -10], [-10, -10]] })] := by decide
 
 end Cherab.Props.C08
